@@ -26,6 +26,7 @@ type Epoch struct {
 	parent  *State          // havoc / loop: state before
 	mod     map[string]bool // loop: keys havocked (nil for havoc-all)
 	modAll  bool
+	keep    []string // havoc: key prefixes that pass through (callee contract `preserves`)
 	cache   map[string]Term
 }
 
@@ -84,7 +85,7 @@ func (ep *Epoch) lookup(e *Emitter, g *Gen, key string, sort Sort) Term {
 			t = e.declare(fmt.Sprintf("%s@0", key), sort)
 		}
 	case epHavoc:
-		if keyIsLocal(key) && !ep.mod[key] {
+		if keyIsLocal(key) && !ep.mod[key] || hasAnyPrefix(key, ep.keep) {
 			t = ep.parent.get(e, key, sort)
 		} else if key == "$wm" {
 			t = e.declare(fmt.Sprintf("%s@h%d", key, ep.id), sort)
@@ -152,4 +153,13 @@ func (g *Gen) havocKeys(s *State, mod map[string]bool, all bool) *State {
 	ep.mod = mod
 	ep.modAll = all
 	return &State{ep: ep, w: map[string]Term{}, g: g}
+}
+
+func hasAnyPrefix(key string, ps []string) bool {
+	for _, p := range ps {
+		if strings.HasPrefix(key, p) {
+			return true
+		}
+	}
+	return false
 }
